@@ -6,7 +6,7 @@ export GOFLAGS=-mod=mod GOPROXY=off GOSUMDB=off GOTOOLCHAIN=local
 PATCH=$1; shift
 WT=/tmp/eval-$$
 git -C /repo worktree add -q --detach $WT HEAD || exit 2
-trap 'git -C /repo worktree remove --force $WT >/dev/null 2>&1; rm -rf $WT /verif/.build/eval/tmp_eval-'$$' /verif/.build/*tmp_eval-'$$'*' EXIT
+trap 'git -C /repo worktree remove --force $WT >/dev/null 2>&1; rm -rf $WT /verif/.build/eval/tmp_eval-'$$' /verif/.build/*tmp_eval-'$$'* /verif/.build/run/*tmp_eval-'$$'*' EXIT
 git -C $WT apply $PATCH || { echo "patch does not apply"; exit 2; }
 cd /verif
 for id in "$@"; do
